@@ -169,6 +169,25 @@ def straddle_case(rnd, boundary, shift):
     return t, main, flat
 
 
+def twice_case(rnd, how):
+    """One file included more than once in a build: pasted as often as it is included."""
+    t = Tree(rnd)
+    t.places = ["twice-" + how]
+    main = VR + "/proj/main.asm"
+    snip = [instr("inc", R(16)), data(1, E(0x21), E(0x22))]
+    inc = lambda: line("include", p="snip.inc", abs=False)
+    t.files[VR + "/proj/snip.inc"] = snip
+    if how == "flat":
+        t.files[main] = [instr("nop"), inc(), instr("ret"), inc(), inc(), instr("sleep")]
+        flat = [instr("nop")] + copy.deepcopy(snip) + [instr("ret")] + copy.deepcopy(snip) + copy.deepcopy(snip) + [instr("sleep")]
+    else:
+        t.files[VR + "/proj/mod.inc"] = [instr("dec", R(17)), inc(), instr("dec", R(18))]
+        t.files[main] = [inc(), line("include", p="mod.inc", abs=False), instr("ret"), line("include", p="mod.inc", abs=False)]
+        mod = [instr("dec", R(17))] + copy.deepcopy(snip) + [instr("dec", R(18))]
+        flat = copy.deepcopy(snip) + copy.deepcopy(mod) + [instr("ret")] + copy.deepcopy(mod)
+    return t, main, flat
+
+
 def render_tree(t, root):
     """Renders every file (assigning line numbers) with the virtual root replaced by the real one."""
     texts = {}
@@ -217,6 +236,9 @@ def check(prop, tier, seed):
         for depth in (1, 2, 7, 30, 31, 32, 33):
             t, main, flat = chain_case(rnd, depth)
             cases.append((t, main, flat if flat is not None else [instr("nop")], flat is None))
+        for how in ("flat", "nested"):
+            t, main, flat = twice_case(rnd, how)
+            cases.append((t, main, flat, False))
         for boundary in (8192, 16384, 4096, 65536):
             for shift in (0, 1, 2):
                 t, main, flat = straddle_case(rnd, boundary, shift)
